@@ -10,6 +10,7 @@ import (
 	wt "github.com/hnakamur/whispertool"
 
 	"verifharness/fw"
+	"verifharness/model"
 )
 
 // C14 Binary codec: encode/decode round-trips and frames exactly.
@@ -22,7 +23,7 @@ func (c14) Meta() fw.Meta {
 	return fw.Meta{
 		ID: "C14",
 		Rule: "case = 60 generated objects over all seven message kinds (header of a valid layout, time series incl. the absent/zero series and ranges wider than 2^31, point list, point, value, timestamp, duration incl. negative, archive info); " +
-			"values over float64 bit-pattern classes (+-0, denormals, +-Inf, quiet/signalling NaNs with payloads, random bits); for each object: decode(encode(x)) bit-equal with empty remainder; decode(encode(x)++tail) leaves a remainder that is byte-equal to tail and the input bytes behind the message untouched; " +
+			"values over float64 bit-pattern classes (+-0, denormals, +-Inf, quiet/signalling NaNs with payloads, random bits); for each object: decode(encode(x)) - into a destination that already holds an older object - bit-equal with empty remainder; decode(encode(x)++tail) leaves a remainder that is byte-equal to tail and the input bytes behind the message untouched; " +
 			"2-5 concatenated messages decode in sequence; EVERY proper prefix (all of them up to 2 KiB, boundaries +-2 and 64 random cuts above) yields *WantLargerBufferError with len(prefix) < wanted <= len(encoding) and the grow-to-wanted retry loop succeeds within 4 rounds. " +
 			"non-trivial = object with a non-empty payload (>= 1 value/point/archive) whose prefixes were all checked; distinct by encoding bytes.",
 		Assumptions: []string{
@@ -111,6 +112,9 @@ func (c14) genObj(c *fw.Ctx, j int) codecObj {
 		enc := h.AppendTo(nil)
 		return codecObj{kind: "header", enc: enc, payload: len(l.Archs), dec: func(src []byte) ([]byte, error, string) {
 			var g wt.Header
+			if junk := model.EncodeHeader(model.Layout{Archs: []model.Arch{{Step: 7, Points: 11}, {Step: 21, Points: 9}, {Step: 63, Points: 8}}, Method: 5, Xff: 0.25}); true {
+				g.TakeFrom(junk) // the destination is REUSED: it already holds another header
+			}
 			rest, err := g.TakeFrom(src)
 			if err != nil {
 				return rest, err, ""
@@ -179,7 +183,7 @@ func (c14) genObj(c *fw.Ctx, j int) codecObj {
 		}
 		enc := ts.AppendTo(nil)
 		return codecObj{kind: "timeseries", enc: enc, payload: n, dec: func(src []byte) ([]byte, error, string) {
-			var g wt.TimeSeries
+			g := *wt.NewTimeSeries(1000, 1030, 10, []wt.Value{1, 2, 3}) // reused destination holding an older series
 			rest, err := g.TakeFrom(src)
 			if err != nil {
 				return rest, err, ""
@@ -208,7 +212,7 @@ func (c14) genObj(c *fw.Ctx, j int) codecObj {
 		}
 		enc := pts.AppendTo(nil)
 		return codecObj{kind: "points", enc: enc, payload: n, dec: func(src []byte) ([]byte, error, string) {
-			var g wt.Points
+			g := wt.Points{{Time: 1, Value: 2}, {Time: 3, Value: 4}} // reused destination holding an older list
 			rest, err := g.TakeFrom(src)
 			if err != nil {
 				return rest, err, ""
